@@ -253,6 +253,11 @@ pub fn run_modes(base: u64, cfg: &Cfg, calls: &[Value], others: &[(Cfg, Vec<Valu
         let _ = exec::run_instance(base + 7, oc, ocalls, &opts);
     }
     cmp("same-thread-again", Some(exec::run_instance(base + 1, cfg, calls, &opts)));
+    // (i') the same behaviour again after the wall clock has moved on by more than a second
+    if cfg.json.get("meta").is_some() {
+        std::thread::sleep(std::time::Duration::from_millis(1100));
+        cmp("later-wall-clock-time", Some(exec::run_instance(base + 1, cfg, calls, &opts)));
+    }
     // (ii) on a fresh thread
     {
         let (c2, k2) = (Cfg { json: cfg.json.clone() }, calls.to_vec());
